@@ -52,6 +52,9 @@ AMB = {
     "expt-per-scenario": dict(expt="per-scenario"),
     "expt-all,prob-ub": dict(expt="all", prob="ub"),
     "prob-ub": dict(prob="ub"),
+    # three scenarios, an event made of the first and the last one (mass p0 + p2), by position and by label
+    "expt-non-contiguous": dict(expt="non-contiguous", labels=[0, 1, 2]),
+    "expt-non-contiguous-by-label": dict(expt="non-contiguous-by-label", labels=[2, 0, 1]),
 }
 
 
